@@ -150,6 +150,11 @@ TEquals ==
   /\ (Judge("C01") /\ status = "ok" /\ Rec.res.st = "ok") =>
         Note(Rec.res.bool = Eq(doc, ctx.b, ctx.o), "C01", "equals-oracle")
 
+(* the same statement on one set of live values: the diff applied to the very a it was computed from *)
+TSame ==
+  /\ IsEvent("Same") /\ Consume /\ UNCHANGED <<ctx, doc, rest, status>>
+  /\ Judge("C01") => CheckK(Rec.res.st = "ok" /\ Rec.eq.st = "ok" /\ Rec.eq.bool, "C01", "same-values")
+
 (* ---- C05: the diff is empty exactly when Equals holds ----------------------- *)
 TEqualsAB ==
   /\ IsEvent("EqualsAB") /\ Consume /\ UNCHANGED <<ctx, doc, rest, status>>
@@ -172,7 +177,7 @@ TEnd ==
 Next ==
   \/ TBegin \/ TDiff \/ TTarget
   \/ TStepOk \/ TStepErr \/ TStepAmb \/ TStepKnown \/ TStepMismatch \/ TStepAfter
-  \/ TEquals \/ TEqualsAB \/ TEnd
+  \/ TEquals \/ TEqualsAB \/ TSame \/ TEnd
   \/ (Done /\ UNCHANGED <<doc, rest, status, ctx>>)
 
 Spec == Init /\ [][Next]_vars
